@@ -169,6 +169,18 @@ def opsGen : List String → Option (String × String)
     | some db =>
       let api := apiOf db
       some (s!"ok deterministic,gofmt,cantool,vet api={bytesHex (api.toList.map fun c => UInt8.ofNat c.toNat)}", "-")
+  | ["gnode", h] => do
+    -- the runner-facing glue of every generated node: transmitted messages (sender with a send type) in database
+    -- order with their cyclic flag, received messages (some signal lists the node as receiver), lookups, hooks, toggles
+    match compileHex h with
+    | none => some ("not-in-class", "~")
+    | some db =>
+      if !hasSendType db || db.nodes.isEmpty then some ("no-nodes", "-") else
+      let part (n : DNode) : String :=
+        let tx := (collectTx db n).map fun m => s!"{strOfB m.name}:{m.id}:{m.sendType == 1}"
+        let rx := (collectRx db n).map fun m => s!"{strOfB m.name}:{m.id}"
+        s!"{strOfB n.name} tx=[{",".intercalate tx}] rx=[{",".intercalate rx}]"
+      some ("ok " ++ " ; ".intercalate (db.nodes.map part), "-")
   | ["gdesc", h] => do
     match compileHex h with
     | none => some ("not-in-class", "~")
